@@ -41,8 +41,8 @@ def gen_rename_case(rng):
 def run_rename_real(case):
     import numpy as np
     import spox
-    from spox._public import _temporary_renames
 
+    _temporary_renames = lh.get_manager()
     vs = [spox.argument(spox.Tensor(np.float32, ())) for _ in range(case["n"])]
     for v, name in case["store"]:
         vs[v]._rename(name)
@@ -100,11 +100,16 @@ def shrink_history(prog, hist, ref, key):
 def run(ck: core.Check):
     from translator import renames_ir, writes
 
-    ir = renames_ir.generate()["ir"]
-    w = writes.generate()
-    ck.cov["generated_renames_ir"] = ir
-    ck.cov["generated_write_sites"] = len(w["sites"])
-    ck.cov["generated_inline_events"] = w["inline_events"]
+    try:
+        ck.cov["generated_renames_ir"] = renames_ir.generate()["ir"]
+    except Exception as e:  # noqa: BLE001
+        ck.broken("translator", "translator/renames_ir.py could not read src/spox/_public.py", f"{type(e).__name__}: {e}")
+    try:
+        w = writes.generate()
+        ck.cov["generated_write_sites"] = len(w["sites"])
+        ck.cov["generated_inline_events"] = w["inline_events"]
+    except Exception as e:  # noqa: BLE001
+        ck.broken("translator", "translator/writes.py could not read src/spox", f"{type(e).__name__}: {e}")
     ck.lean(["SpoxModel.Props.C12"], audit="SpoxModel.Audit.C12")
     if ck.thorough:
         ck.leanchecker(["SpoxModel.Props.C12"])
@@ -118,8 +123,19 @@ def run(ck: core.Check):
         ck.broken("correspondence", "C12 driver", str(e))
         rmodel = [None] * len(rcases)
     mism = 0
+    if lh.get_manager() is None:
+        ck.broken("correspondence", "spox._public._temporary_renames not observable (renamed or removed)",
+                  "the manager-on-its-own facet is skipped; the history oracle still watches names around builds")
+        rcases, rmodel = [], []
+    unobs = 0
     for case, m in zip(rcases, rmodel):
-        real = run_rename_real(case)
+        try:
+            real = run_rename_real(case)
+        except Exception as e:  # noqa: BLE001 - changed signature / Var._rename gone
+            unobs += 1
+            if unobs == 1:
+                ck.broken("correspondence", "_temporary_renames facet not observable", f"{type(e).__name__}: {e}")
+            continue
         ck.count(("rn", json.dumps(case)) if len(case["kw"]) >= 2 else None)
         for key, what in judge_rename(case, real):
             ck.failure(key, what, {"mode": "renames", "rename_case": case})
@@ -148,7 +164,11 @@ def run(ck: core.Check):
         group = outs[5 * j: 5 * j + 5]
         if not group:
             break
-        env = lf.realize(prog)
+        try:
+            env = lf.realize(prog)
+        except Exception as e:  # noqa: BLE001
+            ck.broken("correspondence", "program not constructible with the public constructors", f"{type(e).__name__}: {e}")
+            continue
         got = lf.run_build(env, req)
         real = lf.observed(got[1]) if got[0] == "ok" else got[1]
         for m in group:
@@ -175,7 +195,11 @@ def run(ck: core.Check):
         hcases.append({"prog": prog, "hist": hist, "ref": ref, "salt": rng.randrange(0, 200)})
     inproc = []
     for c in hcases:
-        r = lh.run_case(c["prog"], c["hist"], c["ref"])
+        try:
+            r = lh.run_case(c["prog"], c["hist"], c["ref"])
+        except Exception as e:  # noqa: BLE001 - observation machinery, not a verdict
+            ck.broken("correspondence", "history not runnable", f"{type(e).__name__}: {e}")
+            r = {"violations": [], "ref_before": None, "ref_after": None}
         inproc.append(r)
         for o in c["hist"]:
             stats["ops"][o["op"]] = stats["ops"].get(o["op"], 0) + 1
@@ -197,7 +221,12 @@ def run(ck: core.Check):
             continue
         fams += 1
         ck.count(("fam", json.dumps([lf.to_objs(p) for p in fam["progs"]])))
-        for key, what in lh.run_reuse_family(fam):
+        try:
+            bad_ = lh.run_reuse_family(fam)
+        except Exception as e:  # noqa: BLE001
+            ck.broken("correspondence", "look-alike family not runnable", f"{type(e).__name__}: {e}")
+            bad_ = []
+        for key, what in bad_:
             ck.failure(key, what, {"mode": "reuse", "family": fam})
     stats["reuse_families"] = fams
 
@@ -211,7 +240,8 @@ def run(ck: core.Check):
     by_case = {}
     for hs, res in results.items():
         for j, r in enumerate(res):
-            by_case.setdefault(j, {})[hs] = r
+            if r is not None:
+                by_case.setdefault(j, {})[hs] = r
     idx_of = {id(c): k for k, c in enumerate(hcases)}
     for j, per_seed in by_case.items():
         fc = fresh_cases[j]
@@ -270,10 +300,20 @@ def replay(ck: core.Check, doc) -> bool:
             print(f"{key}: {what}")
         return bool(bad)
     if mode == "reuse":
-        bad = lh.run_reuse_family(case["family"])
+        bad = lh.run_reuse_family(case["family"], rounds=12)
         for key, what in bad:
             print(f"{key}: {what}")
         return bool(bad)
+    if mode == "fresh-vs-history":
+        # the original process had built other things before; give this one a (fixed) past too
+        import random
+
+        wr = random.Random(12345)
+        for _ in range(3):
+            wp = lf.gen_program(wr, n_args=2, size=2, max_depth=0)
+            wref = lh.gen_reference(wr, wp)
+            if wref is not None:
+                lh.run_case(wp, [], wref)
     for pre in case.get("prelude", []):
         lh.run_case(pre["prog"], pre["hist"], pre["ref"])
     prog, hist, ref = case["prog"], case.get("hist", []), case.get("ref")
@@ -284,18 +324,21 @@ def replay(ck: core.Check, doc) -> bool:
         return True
     if mode in ("fresh", "fresh-vs-history") or case.get("hashseeds"):
         seeds = case.get("hashseeds", [0, 1, 2, 3])
-        fresh = c03.run_fresh(ck, [{"prog": prog, "hist": hist if mode != "fresh-vs-history" else [], "ref": ref, "salt": case.get("salt", 0)}], seeds, "replay")
+        fresh = c03.run_fresh(ck, [{"prog": prog, "hist": hist if mode != "fresh-vs-history" else [], "ref": ref,
+                                    "salt": case.get("salt", 0) + 17 * j} for j in range(3)], seeds, "replay")
         shas = set()
         for hs, res in fresh.items():
-            for key, what, _ in res[0]["violations"]:
-                print(f"{key}: {what} (PYTHONHASHSEED={hs})")
-                return True
-            shas.add(res[0]["ref_after"])
+            for one in res:
+                if one is None:
+                    continue
+                for key, what, _ in one["violations"]:
+                    print(f"{key}: {what} (PYTHONHASHSEED={hs})")
+                    return True
+                shas.add(one["ref_after"])
         if len(shas) > 1:
             print(f"bytes:differs-across-processes: {sorted(shas)}")
             return True
-        if mode == "fresh-vs-history" and r["ref_after"] not in shas:
-            # this process has only the short history of the replay; run some builds first to give it one
-            print(f"bytes:history-dependent: fresh {sorted(shas)} vs after history {r['ref_after']}")
+        if mode == "fresh-vs-history" and shas and r["ref_after"] not in shas:
+            print(f"bytes:history-dependent: fresh {sorted(shas)} vs after the recorded history {r['ref_after']}")
             return True
     return False
